@@ -162,6 +162,7 @@ def run_spec(ctx, rep, spec, cases, model, limit=None):
         return req_index[k]
 
     pending = []   # (case, real, exp, [(box, req idx)])
+    boxpend = []   # (case, real, bsel, level, req idx): box / level selection against BoxSel.positions / BoxSel.level
     for fsel, level, bsel in cases:
         case = {"spec": spec, "fsel": fsel, "level": level, "bsel": bsel, "limit": limit}
         triv = fsel["t"] == "int" and 0 <= fsel["v"] < nf
@@ -185,6 +186,13 @@ def run_spec(ctx, rep, spec, cases, model, limit=None):
         if bad is not None:
             rep.fail(bad, case, obs={"real": real[0] if real[0] == "refused" else "ok", "detail": str(real[1:])[:300]})
             continue
+        if model and not (real[0] == "refused" and real[1] == "field"):
+            bd = selectors.box_to_driver(bsel)
+            if bd is not None:
+                inl = -(lim + 1) <= level < lim + 1
+                reqs.append({"op": "boxsel", "size": len(spec["levels"][level % (lim + 1)]) if inl else 0,
+                             "nlev": lim + 1, "level": level, "t": bd["t"], "v": bd["v"]})
+                boxpend.append((case, real, bsel, level, len(reqs) - 1))
         # correspondence with the model (per selected box)
         if model and exp[0] == "ok":
             farg = selectors.to_driver(fsel, names)
@@ -197,6 +205,34 @@ def run_spec(ctx, rep, spec, cases, model, limit=None):
                         pending.append((case, real, [(b, model_req(lv, b, farg)) for b in idxs], bm[0]))
     if model and reqs:
         replies = leanio.driver(reqs)
+        for case, real, bsel, level, ri in boxpend:
+            m = replies[ri]
+            if m.get("status") not in ("ok", "refused"):
+                rep.tie("the box-selection model has no answer", case, m); continue
+            if m.get("level") is None:
+                if real[0] == "ok":
+                    rep.tie("reader answers a level key the model (BoxSel.level) refuses", case, m)
+                else:
+                    rep.agree(); rep.count("boxsel:level-refused")
+                continue
+            if m["level"] != level % (lim + 1):
+                rep.tie("level key denotes another level in the model (BoxSel.level)", case, m); continue
+            if real[0] == "refused" and real[1] == "level":
+                rep.tie("reader refuses a level key the model (BoxSel.level) honours", case, m); continue
+            bm = selectors.meaning(bsel, len(spec["levels"][m["level"]]))
+            want = None if bm is None else bm[1]
+            if bm is None and bsel["t"] in ("list", "ndarray", "mask", "lmask") and len(bsel["v"]) == 0:
+                want = []
+            if m["status"] == "refused":
+                if real[0] == "ok" or want is not None:
+                    rep.tie("reader (or numpy's indexing) honours a box selector the model (BoxSel.positions) refuses", case, m)
+                else:
+                    rep.agree(); rep.count("boxsel:refused")
+            elif want is None or m["positions"] != want:
+                rep.tie("the boxes a selector denotes differ between numpy's indexing and the model (BoxSel.positions)", case,
+                        {"model": m, "numpy": want})
+            else:
+                rep.agree(); rep.count("boxsel:positions-agree")
         for case, real, lst, single_b in pending:
             for pos, (b, ri) in enumerate(lst):
                 m = replies[ri]
